@@ -233,17 +233,40 @@ theorem blockOKB_sound (b : Block) (h : blockOKB b = true) : blockOK b := by
   obtain ⟨⟨⟨hl, hi⟩, ht⟩, htt⟩ := h
   exact ⟨identOKB_sound _ hl, fun i hi' => ⟨instOKB_sound i (hi i hi').1, (hi i hi').2⟩, instOKB_sound _ ht, htt⟩
 
-theorem headerString_sig (f : Func) :
-    headerString f = sDefine ++ (flagsString kLead f.lead ++ tyString f.ret ++ [32] ++ Enc.globalName f.name ++ [40] ++ paramsString f.params ++ [41]) ++ [32, 123] := by
-  simp [headerString, headerRest, sOpen]
+theorem tailDecl_space : ∀ (its : List HItem), tailDecl its ++ [32] = 32 :: itemsString its
+  | [] => rfl
+  | it :: its => by
+    have ih := tailDecl_space its
+    simp only [tailDecl, itemsString, List.cons_append, List.append_assoc]
+    rw [ih]; simp
 
-theorem readDecl_print (f : Func) (h : headerOK f) : readDecl (declString f) = some (f.lead, f.ret, f.name, f.params) := by
-  have e : declString f = sDeclare ++ (flagsString kLead f.lead ++ tyString f.ret ++ [32] ++ Enc.globalName f.name ++ [40] ++ paramsString f.params ++ [41]) := by
-    simp [declString]
+/-- the text of a declaration behind `declare `, which is also the text of the header of a definition behind `define ` and in front of ` {` -/
+def sigString (f : Func) : Bytes :=
+  flagsString kLead f.lead ++ tyString f.ret ++ [32] ++ Enc.globalName f.name ++ [40] ++ paramsString f.params ++ [41] ++ tailDecl (itemsOf f.tail)
+
+theorem headerString_sig (f : Func) : headerString f = sDefine ++ sigString f ++ [32, 123] := by
+  have := tailDecl_space (itemsOf f.tail)
+  simp only [headerString, headerRest, sigString, List.append_assoc, List.cons_append, List.nil_append, List.singleton_append]
+  congr 6
+  have e : tailDecl (itemsOf f.tail) ++ [32, 123] = (tailDecl (itemsOf f.tail) ++ [32]) ++ [123] := by simp
+  rw [e, this]; simp
+
+theorem readDecl_print (f : Func) (h : headerOK f) : readDecl (declString f) = some (f.lead, f.ret, f.name, f.params, f.tail) := by
+  have e : declString f = sDeclare ++ sigString f := by
+    simp [declString, sigString]
   rw [readDecl, e, TyParse.stripPrefix_append]
   simp only
   rw [← headerString_sig f]
   exact readHeader_print f h
+
+theorem tailOK_sound (t : HTail) (h : tailOK t = true) : tailFieldsOK t := by
+  simp only [tailOK, Bool.and_eq_true, decide_eq_true_eq, List.all_eq_true] at h
+  obtain ⟨⟨⟨h1, h2⟩, h3⟩, h4⟩ := h
+  refine ⟨?_, h2, h3, h4⟩
+  intro i hi
+  simp only [Option.mem_def] at hi
+  rw [hi] at h1
+  simpa using h1
 
 theorem mdInstOKB_sound (useHex : Int → Bool) (i : Inst) (h : mdInstOKB useHex i = true) : mdOK useHex i := by
   simp only [mdInstOKB, Bool.and_eq_true, List.all_eq_true, Bool.not_eq_true', decide_eq_true_eq, beq_iff_eq] at h
@@ -269,13 +292,16 @@ theorem mdWF_sound (useHex : Int → Bool) (f : Func) (h : mdWF useHex f = true)
   exact ⟨fun i hi => mdInstOKB_sound useHex i (this i (Or.inl hi)), mdInstOKB_sound useHex _ (this _ (Or.inr rfl))⟩
 
 theorem readFunc_print (useHex : Int → Bool) (f : Func) (h : wfSyn f = true) (hmd : mdWF useHex f = true) : readFunc (printFunc useHex f) = some f := by
+  have htail : tailFieldsOK f.tail := by
+    simp only [wfSyn, Bool.and_eq_true] at h
+    exact tailOK_sound f.tail h.2
   simp only [wfSyn, leadOK, Bool.and_eq_true, Bool.not_eq_true', List.all_eq_true, decide_eq_true_eq, Option.isNone_iff_eq_none] at h
-  obtain ⟨⟨⟨⟨hn, hp⟩, hb⟩, hl, _⟩, hrest⟩ := h
+  obtain ⟨⟨⟨⟨⟨hn, hp⟩, hb⟩, hl, _⟩, hrest⟩, _⟩ := h
   have hname : f.name ≠ [] := by intro e; rw [e] at hn; simp at hn
-  have hok : headerOK f := ⟨hname, fun p hp' => identOKB_sound _ (hp p hp'), hl, hrest⟩
+  have hok : headerOK f := ⟨hname, fun p hp' => identOKB_sound _ (hp p hp'), hl, hrest, htail⟩
   by_cases hbl : f.blocks = []
   · -- a declaration
-    obtain ⟨fr, fn, fp, fb, fl⟩ := f
+    obtain ⟨fr, fn, fp, fb, fl, ft⟩ := f
     simp only at hbl
     subst hbl
     simp only [printFunc, List.isEmpty_nil, if_true, readFunc, readDecl_print _ hok]
@@ -449,7 +475,7 @@ theorem fillBlocks_id : ∀ (bs : List Block) (l : List Numbering.Slot), (∀ b 
 
 theorem fill_id (f : Func) (l : List Numbering.Slot) (h : wfSyn f = true) : fill f l = f := by
   simp only [wfSyn, Bool.and_eq_true, List.all_eq_true] at h
-  obtain ⟨⟨⟨⟨_, hp⟩, hb⟩, _⟩, _⟩ := h
+  obtain ⟨⟨⟨⟨⟨_, hp⟩, hb⟩, _⟩, _⟩, _⟩ := h
   unfold fill
   simp only [fillParams_id f.params l hp, fillBlocks_id f.blocks _ hb]
 
@@ -458,7 +484,7 @@ theorem translateIn_wf (ge : GEnv) (f : Func) (hs : wfSyn f = true) (h : wfSemIn
   obtain ⟨⟨⟨⟨⟨⟨⟨⟨hd, hu⟩, hl⟩, hn⟩, hc⟩, ht⟩, hg⟩, hcalls⟩, hpads⟩ := h
   have hlead : leadOK f.lead = true := by
     simp only [wfSyn, Bool.and_eq_true] at hs
-    exact hs.1.2
+    exact hs.1.1.2
   simp only [translateIn, hlead, if_true]
   unfold translateCore
   have hp := Props.C08.parser_accepts_exactly_llvm (slotsOf f) 0
